@@ -21,17 +21,21 @@ BSEM_RULES = {
     "len": ("W-len", "build | data[1] = data_len >> 8 (six reserved bits zero), data[2] = data_len & 0xff, data_len = ceil(bits / 8)"),
     "crc": ("W-crc", "build | data[data_len+3 ..+6] = bits 23..16, 15..8, 7..0 of the CRC over data[.. data_len+3], computed after the length bytes are stored"),
     "num": ("W-num", "build | a message without a number is refused with EncodingNotSupported before anything is written"),
+    "first": ("W-num", "build | the first write of a build is the message's own number in 12 bits, and exactly one encoder runs after it"),
     "panic": ("W-sem", "build | every Assert terminator, index and slice operation of build_message is decided on every abstract path"),
 }
-BSEM_COVERED = {"T-set", "T-gate", "T-clear", "T-writes", "W-win", "W-out", "W-len", "W-crc"}
+BSEM_COVERED = {"T-set", "T-gate", "T-clear", "T-writes", "W-win", "W-out", "W-len", "W-crc", "W-num"}
 
 
 def build_semantics(prog):
     k = id(prog)
     if k not in _BSEM:
-        import buildsem
+        import buildsem, dispatch, engine
         try:
-            _BSEM[k] = buildsem.check(prog)
+            # {variant: number} as Message::number states it (T-num judges that table; here it only says which literal is a variant's own number)
+            numtab = dispatch.number_table(prog, engine.Result("probe"))
+            numtab = {k_: v_ for k_, v_ in (numtab or {}).items() if k_ is not None}
+            _BSEM[k] = buildsem.check(prog, numtab)
         except RecursionError:
             _BSEM[k] = {"paths": 0, "ok_paths": 0, "problems": [], "undecided": ["recursion limit"]}
     return _BSEM[k]
